@@ -26,6 +26,8 @@ def report(findings, viol, where, wit, part="direct"):
         mech = "%s:unguarded-conflict:%s:%s:%s" % (part, f["kind"], f["clause"], "shram" if f["region"] == "shram" else "external")
         if f.get("cur"):
             mech += ":%s-after-%s" % (f["cur"].replace("/None", ""), f["prev"].replace("/None", ""))
+            if f.get("aliased_ifm_tiles"):
+                mech += ":aliased-ifm-tiles"
         viol.setdefault(mech, {"mech": mech, "msg": "%s: %s on region %s bytes %s between [%s] and [%s]" % (where, f["clause"], f["region"], f["range"], f["earlier"], f["later"]), "witness": wit})
 
 
